@@ -1,5 +1,5 @@
 """C03 — LDPC-Staircase of_finish_decoding is ML-complete: succeeds iff recoverable.  BOUNDED (small codes, every received subset)."""
-from checks import lbc
+from checks import lbc, c18
 
 INFO = {
     "level": "model_checking",
@@ -8,7 +8,7 @@ INFO = {
                    "of_set_available_symbols in increasing / decreasing / shuffled order and with different ML injection orders, of_finish_decoding "
                    "makes all k sources available <=> the columns of H of the symbols not received are linearly independent (spec_full_rank), "
                    "leaves decoding incomplete otherwise, and every available source equals the encoded one for all source data (symbolic)",
-    "assumptions": ["BOUNDED: k + (n-k) <= 9 (quick: three codes incl. one with even N1 and extra entries; thorough: nine codes), symbol length 1 byte (byte positions are independent in every kernel: C13)",
+    "assumptions": ["BOUNDED: k + (n-k) <= 12; quick: every subset of k3r3 and k2r5ex, 128 of 256 of k4r4, 80 of k3r5e (even N1 < n-k), plus the recoverable sets with an all-unknown equation of six codes; thorough: every subset of nine codes; the dense solver separately at the 32/33-unknown word boundary; symbol length 1 byte (byte positions are independent in every kernel: C13)",
                     "the matrix construction is replaced by a stub that builds the constant matrix through the real of_mod2sparse_insert (which matrix the construction returns is C05's subject)",
                     "libc rand() (ML injection order of repair symbols) is a constant sequence per run; a few sequences are tried",
                     "outcome independent of order/API is decided only through the enumerated (subset, order, API) instances all agreeing with the set-only specification"],
@@ -17,4 +17,6 @@ INFO = {
 
 
 def jobs(tier, seed):
-    return lbc.c03_jobs(tier, seed, prop="C03")
+    # + the dense solver used by ML decoding against exact bit-matrix algebra at the 32/64-column word boundaries (C18's solver contract, re-run here:
+    #   systems of that size cannot be reached through a whole session inside the bound)
+    return lbc.c03_jobs(tier, seed, prop="C03") + [j for j in c18.jobs(tier, seed) if j.name.startswith(("solver.lower_triangular.32x31", "solver.upper_triangular.32x31", "solver.lower_triangular.33x32", "solver.upper_triangular.33x32"))]
